@@ -166,7 +166,10 @@ class TTLEviction(CacheEvictionPolicy):
 
         Args:
             ttl: Time-to-live in seconds.
-            clock_func: Function returning current time. Defaults to time.time().
+            clock_func: Function returning current time in seconds. When
+                omitted, the policy follows the simulation clock of the
+                CachedStore it is attached to (see ``bind_clock``); used
+                stand-alone it falls back to time.time().
 
         Raises:
             ValueError: If ttl <= 0.
@@ -176,7 +179,20 @@ class TTLEviction(CacheEvictionPolicy):
 
         self._ttl = ttl
         self._clock_func = clock_func or time.time
+        self._clock_is_default = clock_func is None
         self._insert_times: dict[str, float] = {}
+
+    def bind_clock(self, clock_func: Callable[[], float]) -> None:
+        """Use ``clock_func`` unless a clock was given to the constructor.
+
+        Called by ``CachedStore`` when the simulation clock is injected, so
+        that a policy created as ``TTLEviction(ttl=...)`` expires entries in
+        simulated time. Without it the default ``time.time`` made expiry
+        depend on how fast the host executes the run (wall-clock time), i.e.
+        the same model and seeds could give different runs.
+        """
+        if self._clock_is_default:
+            self._clock_func = clock_func
 
     @property
     def ttl(self) -> float:
